@@ -3,6 +3,8 @@
 expect regex is given, register the seed as a rule self-test under selftest/PROPERTY/."""
 import json, sys, os, shutil
 sid, prop, needs, caught, expect = sys.argv[1:6]
+# optional 6th argument: the property whose check reports the seed (self-test placed there) when it differs
+stprop = sys.argv[6] if len(sys.argv) > 6 else prop
 d = f"/verif/seeded/{sid}"
 v = open(f"{d}/.verify").read().split() if os.path.exists(f"{d}/.verify") else []
 meta = {
@@ -21,7 +23,7 @@ meta = {
 }
 json.dump(meta, open(f"{d}/meta.json", "w"), indent=1)
 if expect != "-":
-    os.makedirs(f"/verif/selftest/{prop}", exist_ok=True)
-    shutil.copy(f"{d}/patch.diff", f"/verif/selftest/{prop}/seed-{sid}.patch")
-    open(f"/verif/selftest/{prop}/seed-{sid}.expect", "w").write(expect + "\n")
+    os.makedirs(f"/verif/selftest/{stprop}", exist_ok=True)
+    shutil.copy(f"{d}/patch.diff", f"/verif/selftest/{stprop}/seed-{sid}.patch")
+    open(f"/verif/selftest/{stprop}/seed-{sid}.expect", "w").write(expect + "\n")
 print("ok", sid)
